@@ -453,6 +453,9 @@ func (c *fsClient) OnStore(x *Exec, st *State, fr *Frame, pos token.Pos, addr, v
 			for _, m := range val.Args {
 				if m.contains(cur) || true {
 					nm := x.load(st, mk("field", "Reader.name", nil, m), nil)
+					if os.Getenv("RSA_DEBUG") == "5" {
+						fmt.Fprintf(os.Stderr, "OnStore member %s name %s drawn %s class %v\n", m, nm, d, c.classOf(st, nm))
+					}
 					if !(m.contains(cur) || nm.contains(cur)) {
 						continue
 					}
@@ -501,7 +504,7 @@ func (c *fsClient) isStackObj(t *Term) bool {
 }
 
 // OnLoopExit discharges tokens that every iteration drawing them released.
-func (c *fsClient) OnLoopExit(x *Exec, st *State, all *Term, backs []*State) {
+func (c *fsClient) OnLoopExit(x *Exec, st *State, all *Term, backs []*State, phiLists []*Term) {
 	g := c.g(st)
 	curKey := strings.Replace(all.key, "loopall[", "loopcur[", 1)
 	for _, set := range []map[string]*Term{g.held, g.tmps, g.inplace} {
@@ -556,6 +559,11 @@ func (c *fsClient) OnLoopExit(x *Exec, st *State, all *Term, backs []*State) {
 			for _, cl := range st.mem {
 				if cl.val.Op == "list" {
 					g.complete[gk(cl.val)] = ln
+				}
+			}
+			for _, l := range phiLists {
+				if l.Op == "list" {
+					g.complete[gk(l)] = ln
 				}
 			}
 		}
@@ -724,6 +732,10 @@ func (c *fsClient) Call(x *Exec, st *State, fr *Frame, site ssa.CallInstruction,
 		}
 		return false, nil
 	case "reflect.DeepEqual":
+		if v := g.flag("vanished"); v != nil && (args[0] == v) != (args[1] == v) {
+			// R1: a later read of the list cannot equal the version whose table vanished
+			return ret(tFalse)
+		}
 		return ret(mk("pure", name, types.Typ[types.Bool], args...))
 	case "method:(io/fs.FileInfo).Name", "method:(os.FileInfo).Name", "method:(io/fs.DirEntry).Name":
 		return ret(mk("direntname", "", nil, args[0]))
@@ -744,8 +756,14 @@ func (c *fsClient) Call(x *Exec, st *State, fr *Frame, site ssa.CallInstruction,
 	case "(*Writer).SetLimits":
 		return ret(nil)
 	case "(*Writer).AddRef", "(*Writer).AddLog":
-		s2 := st.clone()
-		return true, []CallOut{{St: st, Val: tNil}, {St: s2, Val: errT("CONTENT")}}
+		// only compaction calls these directly; it re-writes records that an
+		// earlier writer with the same configuration accepted, in merged key
+		// order, so rejection is outside the fault-free model (advisory run only).
+		if c.faults {
+			s2 := st.clone()
+			return true, []CallOut{{St: st, Val: tNil}, {St: s2, Val: errT("CONTENT")}}
+		}
+		return ret(tNil)
 	case "(*Stack).checkAddition":
 		c.note(st, pos, "name check of %s", c.kind(st, args[1]))
 		g.setFlag("nameChecked", args[1])
@@ -757,9 +775,14 @@ func (c *fsClient) Call(x *Exec, st *State, fr *Frame, site ssa.CallInstruction,
 		x.store(st, mk("field", "Reader.name", nil, r), args[1], nil)
 		x.store(st, mk("field", "Reader.src", nil, r), args[0], nil)
 		c.note(st, pos, "open reader %s for %s", r, args[1])
-		s2 := st.clone()
-		s2.note(pos, "NewReader fails (not a valid table)")
-		return true, []CallOut{{St: st, Val: tupleOf(r, tNil)}, {St: s2, Val: tupleOf(tNil, errT("FORMAT"))}}
+		// a listed table is a complete valid table (C05 invariant, rely); only
+		// a stray directory entry may fail to parse
+		if c.faults || args[1].containsOp("direntname") {
+			s2 := st.clone()
+			s2.note(pos, "NewReader fails (not a valid table)")
+			return true, []CallOut{{St: st, Val: tupleOf(r, tNil)}, {St: s2, Val: tupleOf(tNil, errT("FORMAT"))}}
+		}
+		return ret(tupleOf(r, tNil))
 	case "(*Reader).Close":
 		g.closedRd[gk(undraw(args[0]))] = undraw(args[0])
 		c.note(st, pos, "close reader %s", args[0])
@@ -767,9 +790,15 @@ func (c *fsClient) Call(x *Exec, st *State, fr *Frame, site ssa.CallInstruction,
 	case "NewMerged":
 		m := mk("merged", fr.ctx+"/"+siteID(fr, site), types.NewPointer(c.mergedT), x.curMark())
 		g.mergedOf[gk(m)] = args[0]
-		s2 := st.clone()
-		s2.note(pos, "NewMerged fails")
-		return true, []CallOut{{St: st, Val: tupleOf(m, tNil)}, {St: s2, Val: tupleOf(tNil, errT("MERGE"))}}
+		// listed tables have increasing update-index ranges and the stack's
+		// hash id (C05 invariant, rely; the hash accessor is checked by the
+		// sibling rule ACCESSOR), so NewMerged fails only in the advisory run
+		if c.faults {
+			s2 := st.clone()
+			s2.note(pos, "NewMerged fails")
+			return true, []CallOut{{St: st, Val: tupleOf(m, tNil)}, {St: s2, Val: tupleOf(tNil, errT("MERGE"))}}
+		}
+		return ret(tupleOf(m, tNil))
 	case "(*Stack).AutoCompact":
 		// compositional: AutoCompact is analysed as an entry point of its own
 		// from an arbitrary idle handle; here only its abstract results matter.
@@ -794,6 +823,21 @@ func (c *fsClient) Call(x *Exec, st *State, fr *Frame, site ssa.CallInstruction,
 			outs = append(outs, CallOut{St: s, Val: rv})
 		}
 		return true, outs
+	case "(*Merged).SeekRef", "(*Merged).SeekLog", "(*Reader).SeekRef", "(*Reader).SeekLog":
+		// reading valid listed tables fails only on I/O faults
+		it := mk("nonnil", "", nil, mk("iter", fr.ctx+"/"+siteID(fr, site), nil, x.curMark()))
+		if c.faults {
+			s2 := st.clone()
+			return true, []CallOut{{St: st, Val: tupleOf(it, tNil)}, {St: s2, Val: tupleOf(tNil, errT("IO"))}}
+		}
+		return ret(tupleOf(it, tNil))
+	case "(*Iterator).NextRef", "(*Iterator).NextLog":
+		more := x.fresh("unk", fr, "more."+siteID(fr, site), types.Typ[types.Bool])
+		if c.faults {
+			s2 := st.clone()
+			return true, []CallOut{{St: st, Val: tupleOf(more, tNil)}, {St: s2, Val: tupleOf(tFalse, errT("IO"))}}
+		}
+		return ret(tupleOf(more, tNil))
 	case "suggestCompactionSegment":
 		seg := mk("segment", fr.ctx+"/"+siteID(fr, site), nil, x.curMark())
 		s2 := st.clone()
@@ -870,6 +914,10 @@ func (c *fsClient) open(x *Exec, st *State, fr *Frame, site ssa.CallInstruction,
 	}
 	s2 := st.clone()
 	s2.note(site.Pos(), "event: open %s: does not exist (removed by a concurrent compaction)", p)
+	if ln := c.g(s2).flag("lastNames"); ln != nil {
+		// rely R1: the list version that named the vanished table is no longer current
+		c.g(s2).setFlag("vanished", ln)
+	}
 	return []CallOut{{St: st, Val: tupleOf(h, tNil)}, {St: s2, Val: tupleOf(tNil, errT("ENOENT"))}}
 }
 
@@ -1099,6 +1147,9 @@ func (c *fsClient) commitList(x *Exec, st *State, fr *Frame, site ssa.CallInstru
 	}
 	g.setFlag("listRenamed", tTrue)
 	g.setFlag("readAfterCommit", nil)
+	if strings.Contains(role, "Addition") {
+		g.setFlag("commitRenamed", tTrue)
+	}
 	delete(g.held, a.key)
 	delete(g.tmps, a.key)
 	g.setFlag("validated", nil)
